@@ -14,6 +14,14 @@ NA = {
  "C17": "traversal is a pure function of (tree, callback return table); the visitor allocates nothing and meets no fault or schedule",
 }
 CHECKS = {
+ "C07": dict(level="exploration", ref="5.5",
+   technique="deterministic simulation: seeded array operation histories with injected growth/shrink allocation failures vs std::vector reference model; destruction callbacks as release observer",
+   text="Seeded histories of add/put/insert/delete-range/shrink/sort/bsearch/get with indices inside, at and beyond the bounds (up to SIZE_MAX-adjacent) on arrays of initial capacity 0..70, fault-free and fault-injecting batches; after every op return code, length, every element (identity) over [0,len+2], and the set of elements released in that op equal the model.",
+   note="Trusts the ~100-line vector model and the delete callbacks; finite-capacity allocator (64 MiB) turns absurd growth into clean failure; caller errors (negative shrink, wrong type) not generated."),
+ "C11": dict(level="exploration", ref="5.7",
+   technique="deterministic simulation: seeded set_string histories across the inline/heap threshold with injected allocation failure vs byte-vector model",
+   text="Seeded histories over three string nodes with lengths crossing the inline-storage threshold in both directions, embedded NUL and non-UTF-8 bytes; after every op bytes, length, terminator, equality with a fresh node, deep copy and serialization round trip agree with the model; a failed set returns 0 and keeps the old bytes; ASan + exact live-allocation accounting.",
+   note="Trusts the byte-vector model, ASan and the allocator wrapper; serialization checked by round trip through json-c's own parser."),
  "C03": dict(level="exploration", ref="5.1",
    technique="deterministic simulation: seeded chunk schedules (transport cutting one byte stream into parse_ex calls) vs one-shot parse of the concatenation on a fresh parser",
    text="For each generated/mutated stream: every single cut position, seeded multi-cut partitions (with zero-length chunks) and byte-at-a-time delivery, all 8 flag combinations, several depth limits; after each call the (status, typed value, end position) triple is compared with one call on the same bytes by a fresh parser, and parsing resumes on the same parser after a success. Sampling over streams, exhaustive over single cuts per stream.",
